@@ -1,7 +1,7 @@
 (* C18 -- segment calculus is exact.  Statements only; proofs in Lemmas/BezierFacts.v.
    Range: Bezier segments with 2..7 control points (degree 1..6), ALL rational control
    points, ALL rational parameters.  peq is coordinate-wise == on Q. *)
-From SV Require Import Model.Curve Lemmas.BezierFacts.
+From SV Require Import Model.Curve Lemmas.BezierFacts Lemmas.Safe.
 Open Scope Q_scope.
 
 (* segment(t) is the Bernstein sum of the docs *)
@@ -52,6 +52,12 @@ Theorem C18_on_seg_sound : forall s p, on_seg s p = true ->
   exists u, 0 <= u /\ u <= 1 /\ dist2 s p u < tol6sq.
 Proof. exact on_seg_sound. Qed.
 Print Assumptions C18_on_seg_sound.
+
+(* segment(t) in segment, for straight segments longer than the tolerance *)
+Theorem C18_on_seg_complete_line : forall a b t, tol6 < norm2 (psub b a) -> 0 <= t -> t <= 1 ->
+  on_seg [a; b] (eval [a; b] t) = true.
+Proof. exact on_seg_eval. Qed.
+Print Assumptions C18_on_seg_complete_line.
 
 (* partial: completeness of `in` (segment(t) in segment) is proved for straight segments in
    Props/C02.v (on_seg_exact_line); for curved regular segments it rests on the Newton iteration
